@@ -1440,8 +1440,28 @@ def c20(tier):
     import refzip
     rep = Report("C20", tier)
     wd = vlib.workdir("C20", tier)
-    vlib.build_harness()      # the harness contains the compile-time Send + Sync assertions for ZipArchive<R>
-    rep.notes["send_sync"] = "asserted at compile time in harness/src/cexec.rs for Cursor<Vec<u8>>, Cursor<&[u8]> and the yielding reader"
+    # the harness contains the compile-time Send + Sync assertions for ZipArchive<R>; when the build fails WITH them
+    # and succeeds WITHOUT them, the handle lost Send/Sync: that is a violation of the property, not tool trouble
+    try:
+        vlib.build_harness()
+        rep.notes["send_sync"] = "asserted at compile time in harness/src/cexec.rs for Cursor<Vec<u8>>, Cursor<&[u8]> and the yielding reader"
+    except ToolTrouble:
+        flags = "--cfg zip_verif --check-cfg cfg(zip_verif) --cfg zip_verif_no_sendsync --check-cfg cfg(zip_verif_no_sendsync)"
+        p = subprocess.run(["cargo", "build", "--release", "--offline"], cwd=vlib.HARNESS, env=dict(os.environ, CARGO_NET_OFFLINE="true", RUSTFLAGS=flags),
+                           stdout=subprocess.PIPE, stderr=subprocess.STDOUT, text=True)
+        if p.returncode != 0:
+            raise
+        q = subprocess.run(["cargo", "build", "--release", "--offline"], cwd=vlib.HARNESS, env=dict(os.environ, CARGO_NET_OFFLINE="true"),
+                           stdout=subprocess.PIPE, stderr=subprocess.STDOUT, text=True)
+        msg = [ln for ln in q.stdout.splitlines() if "cannot be sent" in ln or "cannot be shared" in ln or "Send" in ln or "Sync" in ln][:12]
+        path = vlib.save_replay("C20", "send-sync", {"kind": "ZipArchive<R> is no longer Send + Sync for Send + Sync readers",
+                                                     "how_to_replay": "cargo build --release --offline in /verif/harness (harness/src/cexec.rs send_sync_facts)",
+                                                     "compiler_output": msg})
+        rep.violations.append((path, "the harness builds only without its Send/Sync assertions"))
+        rep.notes["send_sync"] = "VIOLATED: build fails with the assertions, succeeds without them"
+        # the rest of the check runs on the build without the assertions
+        subprocess.run(["cargo", "build", "--release", "--offline"], cwd=vlib.HARNESS, env=dict(os.environ, CARGO_NET_OFFLINE="true", RUSTFLAGS=flags),
+                       stdout=subprocess.PIPE, stderr=subprocess.STDOUT, text=True)
     r = vlib.tlc_mc("Clones.tla", "MC_Clones.cfg", wd, timeout=600, tag="mc-clones")
     rep.add_mc(r, "MC_Clones.cfg")
     if r["error"]:
@@ -1481,6 +1501,32 @@ def c20(tier):
             scs.append({"sc": "il%d-%05d" % (si, n), "hex": b.hex(), "handles": len(scripts), "steps": steps})
             n += 1
     rep.notes["exhaustive_interleavings"] = n
+    # interleaving INSIDE a call, at I/O granularity: while handle 0 is at the k-th I/O operation of opening entry i
+    # (its first open, so the shared data-start cell is being determined), handle 1 opens an entry and reads it
+    def readall(i):
+        return {"op": "read", "k": 100000, "plen": len(datas[i]), "pcrc": crc_hex(datas[i])}
+    nn = 0
+    for i in range(len(datas)):
+        for j in ([i] if tier == "quick" else range(len(datas))):
+            for k in range(0, 9):
+                steps = [{"h": 0, "op": "open", "i": i, "hook": {"at": k, "steps": [{"h": 1, "op": "open", "i": j}, dict(readall(j), h=1)]}},
+                         dict(readall(i), h=0), {"h": 1, "op": "open", "i": i}, dict(readall(i), h=1), {"h": 2, "op": "open", "i": i}, dict(readall(i), h=2)]
+                scs.append({"sc": "nest-%d-%d-%d" % (i, j, k), "hex": b.hex(), "handles": 3, "steps": steps})
+                nn += 1
+            # ... and while handle 0 is in the middle of READING entry i
+            for k in range(0, 3):
+                steps = [{"h": 0, "op": "open", "i": i}, {"h": 0, "op": "read", "k": 100000, "plen": len(datas[i]), "pcrc": crc_hex(datas[i]),
+                                                      "hook": {"at": k, "steps": [{"h": 1, "op": "open", "i": j}, dict(readall(j), h=1)]}}]
+                scs.append({"sc": "nestr-%d-%d-%d" % (i, j, k), "hex": b.hex(), "handles": 2, "steps": steps})
+                nn += 1
+        # a handle whose own reader fails at the k-th operation of its first open: every other handle, and the same
+        # handle afterwards, still see exactly the entry
+        for k in range(0, 8):
+            steps = [{"h": 0, "op": "open", "i": i, "fault_at": k}, {"h": 1, "op": "open", "i": i}, dict(readall(i), h=1),
+                     {"h": 0, "op": "open", "i": i}, dict(readall(i), h=0)]
+            scs.append({"sc": "fault-%d-%d" % (i, k), "hex": b.hex(), "handles": 2, "steps": steps})
+            nn += 1
+    rep.notes["nested_and_fault_scenarios"] = nn
     # random longer interleavings
     for i in range(60 if tier == "quick" else 1500):
         nh = rnd.randint(2, 6)
@@ -1496,6 +1542,15 @@ def c20(tier):
             scripts.append(steps)
         scs.append({"sc": "thr%05d" % i, "hex": b.hex(), "handles": nh, "threads": True, "yield_every": rnd.choice([1, 2, 3, 7]),
                     "scripts": scripts, "steps": []})
+    # threads released together, all opening the SAME entry first (a race on its first open), yielding at every I/O operation
+    for i in range(120 if tier == "quick" else 3000):
+        nh = rnd.choice([2, 3, 4, 8])
+        e0 = rnd.randrange(len(datas))
+        scripts = []
+        for h in range(nh):
+            steps = [{"h": h, "op": "open", "i": e0}, dict(readall(e0), h=h)] + [dict(st, h=h) for st in clone_steps(rnd, datas, 1, rnd.randint(2, 10))]
+            scripts.append(steps)
+        scs.append({"sc": "race%05d" % i, "hex": b.hex(), "handles": nh, "threads": True, "yield_every": 1, "scripts": scripts, "steps": []})
     progs = os.path.join(wd, "clone-scenarios.ndjson")
     trace = os.path.join(wd, "clone-trace.ndjson")
     vlib.write_ndjson(progs, scs)
